@@ -1,6 +1,7 @@
 """C11 — PES header decoding (NewPESHeader, packet.PESHeader, pes.AlignedPUSI) for every header shape.
 Logical records are serialised by the Coq Spec serialiser (modelexec op ser.pes, Spec/PesSpec.v) and, independently,
 by ser_py below (the two are compared while generating); the expected getters are computed from the logical record."""
+import sys
 import vlib
 from vlib import Case, hx, unhx, parse_val
 
@@ -16,7 +17,8 @@ RULE = ("well-formed PES starts from logical records: all 256 stream ids x PTS_D
         "random bytes as malformed stream (outcome class only). Non-trivial = distinct request inside the property's hypotheses")
 EXHAUSTIVE = True
 EXHAUSTIVE_NOTE = ("the grid stream_id (256) x PTS_DTS_flags (3) x header_data_length class (4) x data_alignment_indicator (2) is "
-                   "enumerated completely on every run, and every adaptation_field_length 0..255 is used for packets; the remaining "
+                   "enumerated completely on every run, as is every header_data_length 0..255 (for each PTS_DTS shape, one stream id "
+                   "in quick, eight in thorough), and every adaptation_field_length 0..255 is used for packets; the remaining "
                    "fields are sampled; the unbounded domain is covered by theorem C11_decode_ser")
 ASSUMPTIONS = ["a Go nil slice and an empty slice are the same observation (Data() is nil or non-empty in the code)",
                "callers pass slices with cap = len (DESIGN section 3)"]
@@ -116,6 +118,12 @@ def proj_class(reply):
     return klass(reply)
 
 
+def proj_returns(reply):
+    """C05 projection: does the call return (value or error) or does it panic / hang / kill the process"""
+    k = klass(reply)
+    return k if k in ("panic", "hang", "crash", "bad") else "returns"
+
+
 def mk_pkt(pusi, afc, aflen, payload, rng, pid=0x100, cc=5):
     """188-byte transport packet: header, adaptation field of aflen bytes when afc has bit 2, then the payload bytes"""
     p = bytearray([0x47, (0x40 if pusi else 0) | (pid >> 8), pid & 0xff, (afc << 4) | cc])
@@ -181,6 +189,21 @@ def records(rng, tier):
                         plen = rng.choice((0, 1, 0xffff, 0x0100, 0x00ff, (3 + tslen + nex + dl) & 0xffff, rng.randrange(65536)))
                         recs.append(dict(id=sid, plen=plen, f6=f6, f7=f7, mode=mode, pts=pts if mode else 0,
                                          dts=dts if mode == 3 else 0, extra=extra, data=data))
+    # every header_data_length 0..255 that the PTS_DTS shape allows, for a few ids (all of them with optional header)
+    ids = [0xE0] if tier == "quick" else [0xE0, 0xC0, 0xBD, 0x00, 0xBC, 0xFE, 0xFD, rng.randrange(256)]
+    for sid in ids:
+        if sid in PLAIN:
+            continue
+        for mode in (0, 2, 3):
+            tslen = {0: 0, 2: 5, 3: 10}[mode]
+            for hdl in range(tslen, 256):
+                k += 1
+                dl = rng.choice((0, 1, 5, 20))
+                recs.append(dict(id=sid, plen=rng.randrange(65536), f6=0x80 | (4 if k % 2 else 0), f7=FLAGS7[k % len(FLAGS7)],
+                                 mode=mode, pts=TS_GRID[k % len(TS_GRID)] if mode else 0,
+                                 dts=TS_GRID[(k * 3 + 1) % len(TS_GRID)] if mode == 3 else 0,
+                                 extra=bytes(rng.choice((0xff, rng.randrange(256))) for _ in range(hdl - tslen)),
+                                 data=bytes(rng.randrange(256) for _ in range(dl))))
     return recs
 
 
@@ -189,15 +212,22 @@ def gen(rng, tier):
     out = []
     recs = records(rng, tier)
     sers = vlib.run_model([ser_line(r) for r in recs])
-    for r, s in zip(recs, sers):
+    specs = vlib.run_model(["spec.pes" + ser_line(r)[len("ser.pes"):] for r in recs])
+    for r, s, sp in zip(recs, sers, specs):
         b = unhx(s)
         if b != ser_py(r):
-            raise RuntimeError("Coq serialiser and Python serialiser disagree on %r: %s vs %s" % (r, s, hx(ser_py(r))))
+            print("ERROR C11 generator: Coq serialiser and Python serialiser disagree on %r: %s vs %s" % (r, s, hx(ser_py(r))))
+            sys.exit(2)
         r["ser"] = b
+        # required getters: from the Coq-extracted Spec (spec.pes); the Python copy is only a cross-check
+        r["view"] = proj_view(parse_val(sp))
+        if r["view"] != expected_view(r):
+            print("ERROR C11 generator: Spec/PesSpec.v and the Python expectation disagree on %r: %r vs %r" % (r, r["view"], expected_view(r)))
+            sys.exit(2)
     # 1. NewPESHeader on every well-formed start
     for r in recs:
         line = "pes.new " + hx(r["ser"])
-        EXPECT[line] = expected_view(r)
+        EXPECT[line] = r["view"]
         out.append(Case(line, kind="wf-plain-id" if r["id"] in PLAIN else "wf-mode%d" % r["mode"], theorem="C11_decode_ser", proj=proj_new))
     # 2. the same starts inside transport packets
     step = 7 if tier == "quick" else 1
@@ -252,8 +282,8 @@ def gen(rng, tier):
         EXPECT[line] = (b2, expected_view(r2))
         out.append(Case(line, kind="insert-then-decode", theorem="C11_pes_pts_dts_readback", proj=proj_put))
     # 4b. the library's own builder packet.WithPES, then packet.PESHeader / NewPESHeader (end to end through the library)
-    afs = [None] + list(range(0, 256)) if tier == "thorough" else [None, 0, 1, 2, 7, 100, 168, 169, 170, 171, 174, 175, 179, 180, 182, 183, 184, 255]
-    for i, af in enumerate(afs * (1 if tier == "thorough" else 4)):
+    afs = [None, None, None, None] + list(range(0, 256))   # no adaptation field, and every adaptation_field_length
+    for i, af in enumerate(afs * (8 if tier == "thorough" else 1)):
         pk = bytearray(rng.randrange(256) for _ in range(188)); pk[0] = 0x47
         if rng.random() < 0.3:
             pk = bytearray(188); pk[0] = 0x47; pk[1] = 0x41
@@ -289,6 +319,10 @@ def gen(rng, tier):
             m = bytearray(s[:40]); i = rng.randrange(len(m)); m[i] ^= 1 << rng.randrange(8)
             out.append(Case("pes.new " + hx(m), kind="malformed-bitflip", decides=False, nontrivial=False, proj=proj_class,
                             theorem="new_pes_header_total"))
+    # the same malformed inputs decide the C05 clause "returns a value or an error, never panics" (proved of the model:
+    # C11_new_pes_header_total), so a panic of the real code is reported with that input as the replay
+    for c in [c for c in out if c.kind.startswith("malformed")]:
+        out.append(Case(c.line, kind=c.kind + "-c05", theorem="C11_new_pes_header_total", proj=proj_returns, nontrivial=False))
     for _ in range(300 if tier == "quick" else 20000):
         m = bytes(rng.randrange(256) for _ in range(rng.randrange(0, 40)))
         out.append(Case("pes.new " + hx(m), kind="malformed-random", decides=False, nontrivial=False, proj=proj_class,
@@ -296,13 +330,30 @@ def gen(rng, tier):
         pk = bytearray(rng.randrange(256) for _ in range(188)); pk[0] = 0x47
         out.append(Case("pes.aligned " + hx(pk), kind="malformed-random-packet", decides=False, nontrivial=False, proj=proj_class,
                         theorem="aligned_pusi_total"))
+        out.append(Case("pes.new " + hx(m), kind="malformed-random-c05", theorem="C11_new_pes_header_total", proj=proj_returns, nontrivial=False))
+        out.append(Case("pes.aligned " + hx(pk), kind="malformed-random-packet-c05", theorem="C11_pkt_pes_header_no_panic", proj=proj_returns,
+                        nontrivial=False))
         out.append(Case("pes.pkt " + hx(pk), kind="random-packet", theorem="C11_pkt_pes_header_iff", proj=proj_pkt))
+    crosscheck_pkt(out)
     return out
+
+
+def crosscheck_pkt(cases):
+    """expected_pkt (Python) against the Coq-extracted Spec (spec.pkt) on every pes.pkt case of this run"""
+    lines = [c.line for c in cases if c.line.startswith("pes.pkt ")]
+    got = vlib.run_model(["spec.pkt" + l[len("pes.pkt"):] for l in lines])
+    for l, g in zip(lines, got):
+        g = g if g.startswith("[0") else "err"
+        if l not in EXPECT:
+            EXPECT[l] = g          # random packets: the requirement comes from the Coq Spec alone
+        elif g != EXPECT[l]:
+            print("ERROR C11 generator: Spec/PesSpec.v and the Python expectation disagree on %s: %s vs %s" % (l[:80], g[:80], EXPECT[l][:80]))
+            sys.exit(2)
 
 
 def oracle(c, real, model):
     want = EXPECT.get(c.line)
-    if want is None or not c.decides:
+    if want is None or not c.decides or c.kind.endswith("-c05"):
         return None
     proj = c.proj or (lambda x: x)
     try:
@@ -338,6 +389,8 @@ def search(c, rng):
 
 def case_of_line(line, kind):
     op = line.split(" ")[0]
+    if kind.endswith("-c05"):
+        return Case(line, kind=kind, proj=proj_returns)
     if kind.startswith("malformed") or kind.startswith("aligned-pusi-truncated") or kind == "aligned-af-lengths":
         return Case(line, kind=kind, decides=False, proj=proj_class if kind.startswith("malformed") else None)
     if kind == "withpes-no-room":
@@ -349,9 +402,11 @@ def case_of_line(line, kind):
 LEVEL_TEXT = ("Proof: Properties/C11.v states, for ALL well-formed logical PES starts (any stream id, length, flag bits, "
               "PTS/DTS shape, header_data_length, extra bytes, payload), that NewPESHeader applied to the ISO serialisation returns "
               "prefix, id, alignment, HasPTS/HasDTS, the exact 33-bit values and Data = the payload (offset 6 for the seven ids "
-              "without optional header); packet.PESHeader = Ok iff PUSI and payload >= 4 bytes starting 00 00 01; AlignedPUSI iff "
-              "additionally the alignment flag; InsertPTS-then-decode end to end; totality of the decoders on arbitrary bytes. "
-              "The model is tied to /repo on every run over the complete grid ids x PTS_DTS x header-length class x alignment.")
+              "without optional header), also when a transport packet carries only a prefix of the PES packet; packet.PESHeader = Ok "
+              "iff PUSI and payload >= 4 bytes starting 00 00 01; AlignedPUSI iff additionally the alignment flag; InsertPTS-then-decode "
+              "and packet.WithPES-then-decode end to end; totality of the decoders on arbitrary bytes (no panic, Data a suffix of the "
+              "input). The model is tied to /repo on every run over the complete grid ids x PTS_DTS x header-length class x alignment, "
+              "every header_data_length and every adaptation_field_length; expectations come from the Coq-extracted Spec.")
 LEVEL_NOTE = ("Trusted: Coq kernel; Spec/PesSpec.v + Spec/TimestampSpec.v as the reading of ISO 13818-1 2.4.3.6/2.4.3.7 (the Python "
               "serialiser in the generator is compared with the extracted one on every record); the transcription Model/Pes.v; "
               "extraction and glue. ISO also lists program_stream_map (0xBC) without optional header; the property and the code list seven ids.")
